@@ -24,6 +24,11 @@ def run_one(mod, case, ctx, cls="replay", idx=0):
     ctx.case_note = None
     ctx.case_findings = []
     random.seed(0xC0FFEE)
+    try:
+        from .sim import net as _simnet
+        _simnet.CURRENT[0] = None       # next Net starts a fresh clock
+    except Exception:
+        pass
     out = []
     try:
         outcome = mod.run(case, ctx) or "ok"
@@ -76,6 +81,8 @@ def main(argv):
     try:
         core.use_repo()
         mod = load_prop(spec["prop"])
+        for name in getattr(mod, "IMPORTS", ()):
+            importlib.import_module(name)
         if hasattr(mod, "setup"):
             mod.setup(spec["tier"])
     except Exception as e:  # un-importable API under test
@@ -98,7 +105,9 @@ def main(argv):
     def work():
         if spec.get("replay_case") is not None:
             import ast
-            yield "replay", 0, ast.literal_eval(spec["replay_case"])
+            rc = ast.literal_eval(spec["replay_case"])
+            if rc is not None:      # None: import-failure witness, no case
+                yield "replay", 0, rc
             return
         g = 0
         for cls, n in mod.plan(tier):
